@@ -636,6 +636,32 @@ def gradcheck_results(spec, cfg, mk, shapes, tier):
                 except Exception as e:
                     if gbad is None:
                         gbad = {"shape": list(shape), "complex": cplx, "input_seed": 100 + sd, "rng_seed": rng, "error": f"{type(e).__name__}: {str(e)[:260]}"}
+    # inputs with exactly-zero samples (null sub-carriers, padding, ReLU latents) next to one large peak: backward must run and every
+    # gradient entry must be finite (0 * inf from an unguarded division shows up here and nowhere on dense random inputs)
+    zbad, nz = None, 0
+    for shape in shapes:
+        for cplx in (False, True):
+            x = _mk_input(shape, cplx, 777)
+            flat = x.reshape(-1)
+            flat[::3] = 0
+            flat[1] = flat[1] * 25 + 10
+            try:
+                m = mk()
+                f = E3.frozen(m, 999)
+                xs = x.clone().requires_grad_(True)
+                o = f(xs)
+                (o.abs() ** 2).sum().backward()
+                nz += 1
+                if xs.grad is None or not bool(torch.isfinite(torch.view_as_real(xs.grad) if xs.grad.is_complex() else xs.grad).all()):
+                    zbad = zbad or {"shape": list(shape), "complex": cplx, "non_finite_entries": int((~torch.isfinite(torch.view_as_real(xs.grad) if xs.grad.is_complex() else xs.grad)).sum()) if xs.grad is not None else "no gradient"}
+            except Exception as e:
+                zbad = zbad or {"shape": list(shape), "complex": cplx, "error": f"{type(e).__name__}: {str(e)[:200]}"}
+    r3 = ObResult(ob=f"{spec.id}/gradient_finite_with_exact_zeros", engine="E3", backend="native", kind="bounded", **base)
+    r3.paths = nz
+    if zbad is None:
+        r3.verdict, r3.detail = "discharged", f"bounded: {nz} float64 inputs (real and complex, shapes {shapes}) with every third sample exactly 0 and one 25x peak: backward of sum |f(x)|^2 is finite everywhere"
+    else:
+        r3.verdict, r3.witness, r3.replay_confirmed, r3.detail = "refuted", zbad, True, f"non-finite gradient on an input with exactly-zero samples: {zbad}"
     r1 = ObResult(ob=f"{spec.id}/leaf_reachable", engine="E3", backend="ground", kind="ground", **base)
     r1.paths = nreach
     if nreach == 0:
@@ -655,8 +681,8 @@ def gradcheck_results(spec, cfg, mk, shapes, tier):
         if coarse_only:
             r2.detail += (f"; on {len(coarse_only)} inputs the strict check fails but the Jacobian matches central differences at {COARSE} (max abs err {worst:.2e}): the noise power is round-tripped through float32 "
                           "in kaira/utils/snr.py:snr_to_noise_power (`result.to(torch.float32)`), which makes y(x) a ~1e-7-relative staircase - a precision artefact, the analytic gradient is that of the smooth map")
-    r1.wall_s = r2.wall_s = round(time.time() - t0, 3)
-    return [r1, r2]
+    r1.wall_s = r2.wall_s = r3.wall_s = round(time.time() - t0, 3)
+    return [r1, r2, r3]
 
 
 def _register_stage(key):
@@ -758,5 +784,58 @@ def e2e_grad(spec, cfg, tier, seed):
     r.verdict, r.witness, r.replay_confirmed = ("discharged" if bad is None else "refuted"), bad, (True if bad else None)
     r.detail = (f"bounded: {n} (size,batch) runs of the real DeepJSCCModel; loss=mse(decoder(channel(constraint(encoder(x)))), x); loss.backward(): every one of the {nparams} encoder parameter tensors gets a finite gradient in every run and a non-zero one on the grid; {excused} (run, parameter) zero gradients are also zero for the bare autoencoder decoder(encoder(x)) with the same weights (dead units at reduced width) and are not attributed to constraint+channel"
                 if bad is None else f"encoder parameters without a usable gradient through constraint+channel+decoder: {bad}")
+    r.wall_s = round(time.time() - t0, 3)
+    return [r]
+
+
+# ================================================================================================ NOMA wrapper: option grid (bounded)
+@obligation("C19.noma_device_encoder_grads", function=IMG + "yilmaz2023_deepjscc_noma.py:Yilmaz2023DeepJSCCNOMAModel.forward; " + IMG + "yilmaz2023_deepjscc_noma.py:Yilmaz2023DeepJSCCNOMAModel._forward_perfect_sic",
+            configs=lambda tier: [f"noma_grads[shared_encoder={s},use_device_embedding={e},perfect_sic={c},devices={d}]|{tier}" for s in (0, 1) for e in (1, 2) for c in (0, 1) for d in ((2,) if tier == "quick" else (2, 3))], kind="custom", engine="E3")
+def noma_device_encoder_grads(spec, cfg, tier, seed):
+    """bounded: for every combination of the wrapper's options the reconstruction loss back-propagates into EVERY device's encoder
+    (each encoder the model owns receives a finite, somewhere non-zero gradient) and into every decoder it owns"""
+    from kaira.channels import AWGNChannel
+    from kaira.constraints import AveragePowerConstraint
+    from kaira.models.image.yilmaz2023_deepjscc_noma import Yilmaz2023DeepJSCCNOMAModel
+
+    t0 = time.time()
+    _, p, _ = parse_cfg(cfg)
+    # use_device_embedding: 1 = True given explicitly, 2 = left at its default (None: follows shared_encoder; the default device encoder
+    # is built for 3 image planes + 1 embedding plane, so embedding off needs a user-supplied 3-plane encoder class and is not in this grid)
+    shared, sic, nd = bool(p.get("shared_encoder", 0)), bool(p.get("perfect_sic", 0)), int(p.get("devices", 2))
+    emb = True if int(p.get("use_device_embedding", 1)) == 1 else None
+    if emb is None and not shared:
+        emb = True  # default would switch the embedding off for separate encoders (needs the 3-plane encoder): keep it on explicitly
+    r = ObResult(ob=f"{spec.id}/every_owned_encoder_and_decoder_gets_gradient", engine="E3", backend="native", kind="bounded", **_base(spec, cfg))
+    bad, n = None, 0
+    for (b, h) in ((2, 16), (1, 32)):
+        torch.manual_seed(500 + n)
+        try:
+            m = Yilmaz2023DeepJSCCNOMAModel(AWGNChannel(snr_db=10.0), AveragePowerConstraint(1.0), num_devices=nd, shared_encoder=shared, use_perfect_sic=sic, use_device_embedding=emb, image_shape=(h, h))
+            m.train()
+            x = torch.rand(b, nd, 3, h, h)
+            xin = x if sic else [x[:, i] for i in range(nd)]
+            y = m(xin, csi=torch.rand(b, 1))
+            loss = torch.nn.functional.mse_loss(y, x) if tuple(y.shape) == tuple(x.shape) else None
+            if loss is None:
+                bad = bad or {"batch": b, "size": h, "problem": f"output shape {tuple(y.shape)} != {tuple(x.shape)}"}
+            else:
+                loss.backward()
+                used_enc = list(m.encoders)[:1] if shared else list(m.encoders)  # a shared encoder is encoders[0]; the others are never run
+                used_dec = list(getattr(m, "decoders", []))[:1] if getattr(m, "shared_decoder", False) else list(getattr(m, "decoders", []))
+                for kind, mods_ in (("encoder", used_enc), ("decoder", used_dec)):
+                    for i, sub in enumerate(mods_):
+                        ps = [q for q in sub.parameters() if q.requires_grad]
+                        none = sum(1 for q in ps if q.grad is None)
+                        nonfinite = sum(1 for q in ps if q.grad is not None and not bool(torch.isfinite(q.grad).all()))
+                        anynz = any(q.grad is not None and float(q.grad.abs().max()) > 0 for q in ps)
+                        if ps and (none or nonfinite or not anynz) and bad is None:
+                            bad = {"batch": b, "size": h, "problem": f"{kind} {i} of {len(mods_)}: {none} of {len(ps)} parameter tensors without gradient, {nonfinite} non-finite, any non-zero: {anynz}"}
+        except Exception as e:
+            bad = bad or {"batch": b, "size": h, "problem": f"{type(e).__name__}: {str(e)[:220]}"}
+        n += 1
+    r.paths = n
+    r.verdict, r.witness, r.replay_confirmed = ("discharged" if bad is None else "refuted"), bad, (True if bad else None)
+    r.detail = f"bounded: {n} runs (batch 2 at 16x16, batch 1 at 32x32), mse reconstruction loss, backward" + ("" if bad is None else f": {bad}")
     r.wall_s = round(time.time() - t0, 3)
     return [r]
